@@ -54,14 +54,90 @@ def _call(job):
     return r
 
 
-def pmap(fn, items, serial=False, chunksize=1):
-    """ordered parallel map over picklable items; fn must be a module-level function."""
+ITEM_TIMEOUT = int(os.environ.get("VERIF_ITEM_TIMEOUT", "0"))
+
+
+def _worker(conn):
+    while True:
+        try:
+            job = conn.recv()
+        except EOFError:
+            return
+        if job is None:
+            return
+        idx, fn, item = job
+        conn.send((idx, _call((fn, item))))
+
+
+def pmap(fn, items, serial=False, chunksize=1, item_timeout=None):
+    """ordered parallel map over picklable items; fn must be a module-level function.
+    Own small process pool: a work item that exceeds the wall-clock limit (a solver call that ignores its timeout)
+    is killed, reported as an error result (=> the check ends INCONCLUSIVE, never silently), and its worker replaced."""
     items = list(items)
     if serial or NPROC == 1 or len(items) <= 1:
         return [_call((fn, it)) for it in items]
+    limit = item_timeout or ITEM_TIMEOUT or (1800 if os.environ.get("VERIF_TIER") == "thorough" or "thorough" in sys.argv else 600)
     ctx = mp.get_context("fork")
-    with ctx.Pool(min(NPROC, len(items)), maxtasksperchild=50) as pool:
-        return list(pool.imap(_call, [(fn, it) for it in items], chunksize))
+    results = [None] * len(items)
+    todo = list(range(len(items)))[::-1]
+    workers = {}  # conn -> [process, idx or None, start time]
+
+    def spawn():
+        parent, child = ctx.Pipe()
+        p = ctx.Process(target=_worker, args=(child,), daemon=True)
+        p.start()
+        child.close()
+        workers[parent] = [p, None, 0.0]
+        return parent
+
+    def feed(conn):
+        if todo:
+            i = todo.pop()
+            workers[conn][1], workers[conn][2] = i, time.time()
+            conn.send((i, fn, items[i]))
+        else:
+            workers[conn][1] = None
+
+    for _ in range(min(NPROC, len(items))):
+        feed(spawn())
+    done = 0
+    from multiprocessing.connection import wait
+    while done < len(items):
+        ready = wait(list(workers), timeout=1.0)
+        for conn in ready:
+            try:
+                idx, res = conn.recv()
+            except (EOFError, OSError):
+                p, idx, _ = workers.pop(conn)
+                if idx is not None:
+                    results[idx] = {"item": str(getattr(items[idx], "name", items[idx]))[:200], "error": "worker process died"}
+                    done += 1
+                if todo:
+                    feed(spawn())
+                continue
+            results[idx] = res
+            done += 1
+            feed(conn)
+        now = time.time()
+        for conn in list(workers):
+            p, idx, t0 = workers[conn]
+            if idx is not None and now - t0 > limit:
+                p.kill()
+                workers.pop(conn)
+                results[idx] = {"item": str(getattr(items[idx], "name", items[idx]))[:200], "error": f"work item exceeded {limit} s wall clock and was killed"}
+                done += 1
+                if todo:
+                    feed(spawn())
+    for conn, (p, idx, _) in workers.items():
+        try:
+            conn.send(None)
+        except Exception:  # noqa
+            pass
+    for conn, (p, idx, _) in workers.items():
+        p.join(timeout=2)
+        if p.is_alive():
+            p.kill()
+    return results
 
 
 def known_findings(pid):
